@@ -8,7 +8,7 @@ from collections import Counter
 
 PKG = "auth/api/iam"
 # the second file is an add-only exported helper overlaid into package storage (clock control for the in-memory store)
-HARNESS = ["auth/api/iam/zz_verif_c02_test.go", "auth/api/iam/zz_verif_c02jar_test.go", "storage/zz_verif_c02_export.go"]
+HARNESS = ["auth/api/iam/zz_verif_c02_test.go", "auth/api/iam/zz_verif_c02jar_test.go", "auth/api/iam/zz_verif_c02pol_test.go", "storage/zz_verif_c02_export.go"]
 
 REQUIRED = [
     "s2s_token_only_if", "s2s_defect_combination_rejected", "claims_cannot_override", "claims_cannot_override_today",
@@ -19,6 +19,7 @@ REQUIRED = [
     "fact_reserved_covers_fields", "fact_empty_vp_checked", "fact_nonce_ttl_covers_window", "fact_ttls",
     "jar_parse_only_if", "jar_parse_remote_calls", "authorize_endpoint_only_if", "authorize_endpoint_error_leaves_state",
     "token_endpoint_only_if", "token_endpoint_other_grant_rejected",
+    "policy_load_exact", "s2s_scope_comes_from_a_policy_file", "policy_load_error_kinds", "fact_policy_loader",
     "fact_jar_parse_shape", "fact_jar_validate_shape", "fact_params_get", "fact_authorize_dispatch", "fact_token_dispatch", "fact_oauth_names",
     "fact_verifyvp_args", "fact_audience_exact", "fact_deciding_conditions", "fact_windows", "fact_store_prefixes_distinct", "fact_introspection_fields", "fact_access_token_init", "fact_introspection_init",
 ]
@@ -417,6 +418,33 @@ class Oracle:
                   "redirect_uri": s("redirect_uri"), "defects": op.get("jar_defects")}
         self.judge_authreq(i, signed, res)
 
+    def judge_polload(self, i, op, line):
+        """policy directory -> mapping: judged from the generated files only (suffix .json, not a directory)"""
+        loaded = [e for e in op.get("entries") or [] if not e.get("is_dir") and e["name"].endswith(".json")] if op.get("dir") == "present" else []
+        invalid = [e["name"] for e in loaded if not e.get("ok")]
+        owners = {}
+        for e in loaded:
+            for sc in e.get("scopes") or []:
+                owners.setdefault(sc["scope"], []).append((e["name"], sc))
+        twice = sorted(k for k, v in owners.items() if len(v) > 1)
+        if line.startswith("ok"):
+            if op.get("dir") == "unreadable":
+                self.bad("policy-loaded-from-unreadable-directory", f"op {i}", [i])
+            if invalid:
+                self.bad("policy-loaded-despite-invalid-file", f"op {i}: {invalid}", [i])
+            if twice and not invalid:
+                self.bad("policy-loaded-despite-scope-defined-twice", f"op {i}: scopes {twice}", [i])
+            got = dict(x.split("=", 1) for x in line.split(" ")[1:] if "=" in x)
+            if not invalid and not twice:
+                for scope in op.get("probes") or []:
+                    exp = "-"
+                    if scope in owners:
+                        exp = ",".join(sorted(d["owner"] + ":" + d["id"] for d in owners[scope][0][1]["defs"]))
+                    if got.get(scope) != exp:
+                        self.bad("policy-definitions-differ-from-the-files", f"op {i}: scope {scope!r}: configured {exp!r}, answered {got.get(scope)!r}", [i])
+        elif line.startswith("err:") and op.get("dir") != "unreadable" and not invalid and not twice:
+            self.bad("policy-load-refused-a-valid-directory", f"op {i}: {line} ({[e['name'] for e in op.get('entries') or []]})", [i])
+
     def feed(self, i, op, line):
         kind = op.get("op")
         if kind == "cfg":
@@ -431,6 +459,8 @@ class Oracle:
             self.judge_authreq(i, op, line)
         elif kind == "authz":
             self.judge_authz(i, op, line)
+        elif kind == "polload":
+            self.judge_polload(i, op, line)
         elif kind == "seed":
             self.sessions[op["state"]] = {"spec": op["session"], "t": op["t"], "fulfilled": [], "nonces": {op["nonce"]: op["t"]}, "i": i}
         elif kind == "authresp":
@@ -603,6 +633,10 @@ def run(ctx):
             q = o.get("q") or {}
             delivery = "both" if q.get("request") and q.get("request_uri") else "request" if q.get("request") else ("uri-" + (q.get("request_uri_method") or "default")) if q.get("request_uri") else "none"
             distinct.add(("authz", tuple(jd), cls, delivery))
+        elif o.get("op") == "polload":
+            cls = l.split(" ")[0]
+            outcomes["polload:" + o.get("dir", "") + ":" + cls] += 1
+            distinct.add(("polload", o.get("dir"), cls, tuple(sorted(e.get("kind") or ("dir" if e.get("is_dir") else "") for e in o.get("entries") or []))))
         elif o.get("op") == "introspect":
             cls = "active" if "active=true" in l else ("inactive" if l == "ok active=false" else l.split(":")[0] + ":" + l.split(":")[1] if l.startswith("err") else l[:20])
             outcomes["introspect:" + cls] += 1
